@@ -15,6 +15,7 @@ GROUPS = {
     "dtype_isnone": dict(filter="k_dtype::isnone_", bounded=None),
     "dtype_cast": dict(filter="k_dtype::cast_", bounded=None),
     "dtype_sortcmp": dict(filter="k_dtype::sortcmp_", bounded=None),
+    "agg_bounded": dict(filter="k_agg::bounded_", bounded="BOUNDED: every series of length <= 4 over {null, -3..3} resp. {null, false, true}; a stand-in next to the Verus agg / aggb units, not a proof"),
     "gen_range": dict(filter="k_gen::range_", bounded="BOUNDED: a, b, step symbolic i32 within +-2^8; complete over that band, both step directions"),
     "gen_range_wide": dict(filter="k_gen::wide_range_", bounded="BOUNDED: a, b, step symbolic i32 within +-2^12; both step directions"),
     "gen_linspace": dict(filter="k_gen::linspace_", bounded="a, b symbolic i32 within +-2^24, n <= 2^20"),
